@@ -259,14 +259,17 @@ class Writer:
     binding: dict
 
 
-def writers_of(ex: Extraction, target: Term, sync: Optional[bool] = None) -> list[Writer]:
+def writers_of(ex: Extraction, target: Term, sync=False) -> list[Writer]:
     """Assignments to `target` or parts of it.  Binders of the writer's own loops are unified with the
-    index terms of `target` (so `x[$i]` written in a loop matches target `x[IDX]`)."""
+    index terms of `target` (so `x[$i]` written in a loop matches target `x[IDX]`).
+
+    `sync`: False (default) = combinational domains only, True = clocked domains only, "any" = both.  The default is
+    deliberately not "any": a rule about a wire must not be satisfied by a registered (one cycle late) assignment."""
     out = []
     for f in ex.of(HwAssign):
         if f.lhs is None:
             continue
-        if sync is not None and is_sync(f.domain) != sync:
+        if sync != "any" and sync is not None and is_sync(f.domain) != sync:
             continue
         variables = set(binders_of(f))
         for lhs, part in _lhs_parts(f.lhs):
